@@ -157,17 +157,22 @@ def run(F, chk):
 
     def sig(b):
         calls = {}
-        for fp in F.family(b.path):
+        # the function, its closures and the private helpers of the socket module it delegates to
+        fam = [q for q in cover.reach_functions(F, b.path, depth=2, prefixes=("sozu_lib::socket::", "<sozu_lib::socket::"))
+               if q == b.path or q.startswith(b.path + "::") or not F.body(q).rec.get("pub")]
+        fam = [q for q in fam if not (F.body(q).trait and q != b.path and "{closure" not in q)]
+        for fp in fam:
             fb = F.body(fp)
             for bi, t in fb.calls():
                 c = callee_of(t)
                 if fb.blocks[bi]["t"].get("x") and "log" in t.get("m", ""):
                     continue
                 calls[c] = calls.get(c, 0) + 1
-        writes = {f for (_, f) in cover.body_field_writes(b)}
+        flatb = lib.flat(F, b)
+        writes = {f for (_, f) in cover.body_field_writes(flatb)}
         kinds = set()
         results = set()
-        for fp in F.family(b.path):
+        for fp in fam:
             fb = F.body(fp)
             for bi, si, s in fb.stmts():
                 rv = s.get("rv")
@@ -184,8 +189,10 @@ def run(F, chk):
                     d = fb.single_def(l) if l is not None else None
                     if d and d[2] == "assign" and d[3]["k"] == "discr" and d[3]["adt"].endswith("ErrorKind"):
                         kinds |= {int(v) for v, _ in t["ts"]}
-        bl = [x for x in loops.natural_loops(b) if loops.is_iterator_loop(b, x[0], x[1]) is None]
-        nb = sum(1 for h, body, backs in bl if loops.budget(b, h, body, backs)[0])
+        nb = 0
+        for lb in [b] + [F.body(q) for q in fam if q != b.path and "{closure" not in q]:
+            bl = [x for x in loops.natural_loops(lb) if loops.is_iterator_loop(lb, x[0], x[1]) is None]
+            nb += sum(1 for h, body, backs in bl if loops.budget(lb, h, body, backs)[0])
         return calls, writes, kinds, results, nb
     cw, ww, kw, rw, nbw = sig(sw)
     cv, wv, kv, rv_, nbv = sig(sv)
@@ -326,6 +333,41 @@ def chunk_size_rule(F, chk):
                 continue    # a ChunkHeader copied from an existing block (template), not rendered from a size
             n += 1
             r.fn(b.path)
+            def root(l):
+                """follow plain copies, (re)borrows and the one-element tuples format_args! builds, to the local whose
+                value is meant"""
+                for _ in range(12):
+                    d = b.single_def(l) if l is not None else None
+                    if not (d and d[2] == "assign"):
+                        break
+                    rv2 = d[3]
+                    if rv2["k"] in ("use", "cast"):
+                        pl = op_place(rv2["a"])
+                        if isinstance(pl, int):
+                            l = pl
+                            continue
+                        if isinstance(pl, dict) and len(pl["p"]) == 1 and pl["p"][0].startswith("t|"):
+                            dd = b.single_def(pl["l"])
+                            if dd and dd[2] == "assign" and dd[3]["k"] == "agg" and dd[3].get("ak") == "tuple":
+                                l = op_local(dd[3]["ops"][int(pl["p"][0][2:])])
+                                continue
+                        break
+                    if rv2["k"] in ("ref", "raw"):
+                        pl = rv2["pl"]
+                        if isinstance(pl, int):
+                            l = pl
+                            continue
+                        if pl["p"] == ["*"]:
+                            l = pl["l"]
+                            continue
+                    break
+                return l
+            # the value(s) actually rendered: what is handed to fmt::rt::Argument::new_* for this header's text
+            rendered = set()
+            for x, tt in b.calls():
+                if "fmt::rt::Argument" in callee_of(tt) and isinstance(tt.get("dest"), int) and tt["dest"] in sl["locals"] and tt["args"]:
+                    rendered.add(root(op_local(tt["args"][0])))
+            rendered.discard(None)
             edges = []
             for sb, f, t, atom in guards.bool_switches(b):
                 if atom[0] != "cmp":
@@ -334,10 +376,15 @@ def chunk_size_rule(F, chk):
                     rel = lib.relation_on_edge(b, sb, tgt)
                     if not rel:
                         continue
-                    op, sa, sbb, _ = rel
-                    if op in ("Gt", "Ne") and any(str(c).startswith("0_") for c in sbb["consts"]):
-                        roots = {l for l in sa["locals"] if b.local_name(l)}
-                        if roots & {l for l in sl["locals"] if b.local_name(l)}:
+                    op, sa, sbb, at = rel
+                    if op in ("Gt", "Ne") and any(str(c).startswith("0_") for c in sbb["consts"]) and not sbb["locals"]:
+                        # the tested value must be THE rendered value (same local up to plain copies), not merely related
+                        tested = root(op_local(at[2]))
+                        if tested is not None and tested in rendered:
+                            edges.append((sb, tgt))
+                    if op in ("Lt", "Ne") and any(str(c).startswith("0_") for c in sa["consts"]) and not sa["locals"]:
+                        tested = root(op_local(at[3]))
+                        if tested is not None and tested in rendered:
                             edges.append((sb, tgt))
             key = "%s|ChunkHeader#%d" % (b.path, n)
             if edges and lib.guarded_by(b, bi, edges):
